@@ -46,12 +46,69 @@ class InfraError(Exception):
     """Infrastructure failure -> exit 2, never a VIOLATION."""
 
 
-class BindingBroken(Exception):
+class BindingBroken(BaseException):   # not an `Exception`: the broad `except Exception` blocks that record what the
+    # IMPLEMENTATION raised must never swallow a problem of the harness's own bindings
     """The harness can no longer observe a piece of the implementation it is bound to (a private attribute, a private
     function, a module layout).  The implementation may be perfectly right (a harmless refactoring), but the
     correspondence that used the binding no longer checks: by the verdict rule (DESIGN §2.4) that is a broken
     correspondence - searched for a failing input, reported as `no-failing-input-found` when none is found - never a
     crash of the check."""
+
+
+def find_private(obj, mangled: str, pred=None, hints: tuple[str, ...] = ()) -> str:
+    """Name of a private attribute of an implementation object the harness is bound to.
+
+    `mangled` is the name as of the pinned commit (e.g. `_ZipFileHandler__file`).  When it no longer exists (a harmless
+    rename), the attribute is looked for among the object's other private attributes (instance `__dict__`, `__slots__`,
+    and - for callables - the class namespaces): exactly one whose value satisfies `pred`, narrowed by `hints`
+    (substrings of the new name) when several do.  Raises `BindingBroken` when it cannot be identified."""
+    if hasattr(obj, mangled):
+        return mangled
+    names: list[str] = []
+    seen = set()
+    spaces = [getattr(obj, "__dict__", {})]
+    klass = obj if isinstance(obj, type) else type(obj)
+    for k in klass.__mro__:
+        spaces.append({n: None for n in (getattr(k, "__slots__", ()) or ()) if isinstance(n, str)})
+        spaces.append(vars(k))
+    for sp in spaces:
+        for n in sp:
+            if n in seen or not n.startswith("_") or n.startswith("__") and n.endswith("__"):
+                continue
+            seen.add(n)
+            try:
+                v = getattr(obj, n)
+            except Exception:  # noqa: BLE001 - unset slot
+                continue
+            if pred is None or pred(v):
+                names.append(n)
+    if len(names) > 1 and hints:
+        narrowed = [n for n in names if any(h in n.lower() for h in hints)]
+        if narrowed:
+            names = narrowed
+    if len(names) == 1:
+        return names[0]
+    raise BindingBroken(f"{klass.__module__}.{klass.__qualname__}: private attribute {mangled!r} not found "
+                        f"(candidates by shape: {names[:6]})")
+
+
+def get_private(obj, mangled: str, pred=None, hints: tuple[str, ...] = ()):
+    return getattr(obj, find_private(obj, mangled, pred, hints))
+
+
+def set_private(obj, mangled: str, value, pred=None, hints: tuple[str, ...] = ()) -> None:
+    setattr(obj, find_private(obj, mangled, pred, hints), value)
+
+
+def find_function(module, name: str, hints: tuple[str, ...] = ()):
+    """a module-private function by its pinned name, else the only callable of the module whose name contains a hint"""
+    f = getattr(module, name, None)
+    if f is not None:
+        return f
+    c = [n for n, v in vars(module).items() if callable(v) and any(h in n.lower() for h in hints)]
+    if len(c) == 1:
+        return getattr(module, c[0])
+    raise BindingBroken(f"{module.__name__}: function {name!r} not found (candidates: {c[:6]})")
 
 
 def binding_error(e: BaseException) -> str | None:
